@@ -829,7 +829,7 @@ class Machine:
     def call_closure(self, clo, args):
         while isinstance(clo, (Ref, ValRef)):
             clo = self.read_place(clo.frame, clo.place) if isinstance(clo, Ref) else clo.v
-        if isinstance(clo, tuple) and clo and clo[0] == 'path':
+        if isinstance(clo, tuple) and clo and (clo[0] == 'path' or (clo[0] == 'zst' and not str(clo[1]).startswith('{closure'))):
             return self.call(clo[1], list(args))          # fn item used as a callable
         if isinstance(clo, Closure):
             key, sub = clo.key, clo.subst
